@@ -35,7 +35,7 @@ def writeEffs (P : Params) : List (Eff × Option Path) :=
 
 /-- everything before the rename -/
 def pre (P : Params) : List (Eff × Option Path) :=
-  (Eff.openTrunc P.tmp, none) :: (collectEffs P ++ writeEffs P ++ [(Eff.close P.tmp, none)])
+  (Eff.openTrunc P.tmp, none) :: (collectEffs P ++ (Eff.encode, some P.tmp) :: (writeEffs P ++ [(Eff.close P.tmp, none)]))
 
 theorem body_eq (P : Params) : body P = pre P ++ [(Eff.rename P.tmp P.target, none)] := by
   simp [body, tryBody, compile, Params.res, pre, collectEffs, writeEffs]
@@ -44,7 +44,7 @@ theorem handlerEffs_eq (P : Params) :
     handlerEffs P = [Eff.pathExists P.tmp, Eff.removeIfSeen P.tmp, Eff.reraise] := by
   simp [handlerEffs, handler, upToReraise, compile, Params.res]
 
-theorem body_length (P : Params) : (body P).length = P.collectors.length + P.chunks.length + 3 := by
+theorem body_length (P : Params) : (body P).length = P.collectors.length + P.chunks.length + 4 := by
   simp [body_eq, pre, collectEffs, writeEffs]; omega
 
 def notRename : Eff → Bool
@@ -61,7 +61,7 @@ theorem mem_pre {P : Params} {x : Eff × Option Path} (hx : x ∈ pre P) :
       (∀ h, x.2 = some h → h = P.tmp) := by
   simp only [pre, collectEffs, writeEffs, List.mem_cons, List.mem_append, List.mem_map, List.not_mem_nil,
     or_false] at hx
-  rcases hx with rfl | (⟨i, _, rfl⟩ | ⟨a, _, rfl⟩) | rfl <;> simp [isPrivate, notRename, notRemove]
+  rcases hx with rfl | ⟨i, _, rfl⟩ | rfl | ⟨a, _, rfl⟩ | rfl <;> simp [isPrivate, notRename, notRemove]
 
 theorem isRen_normal {e : Eff} (h : notRename e = true) : isRen (normal e) = false := by
   cases e <;> simp_all [isRen, normal, notRename]
@@ -226,7 +226,8 @@ theorem execV_pre (P : Params) (v : View) :
   simp only [pre, List.map_cons, List.map_append, execV_cons, execV_append, e1, e2, execV_collects]
   obtain ⟨f', b', h1, h2⟩ := execV_writes P.tmp P.chunks [] [] v.loc.seen
   have h0 : stepV (normal (Eff.openTrunc P.tmp)) v = ⟨some [], ⟨[], v.loc.seen⟩⟩ := rfl
-  rw [h0, h1]
+  have h3 : ∀ w : View, stepV (normal Eff.encode) w = w := fun _ => rfl
+  rw [h0, h3, h1]
   simp [normal, stepV, h2, flat_chunks] at h2 ⊢
 
 theorem normalRun_ready (P : Params) (v : View) : Ready P.new (normalRun P) v := by
